@@ -159,14 +159,25 @@ def run_case(c, d):
         c.compare('scale_by_freq:ratio', pb, pa * factor, 1e-10, feats, scale=float(np.max(pa)) * factor,
                   detail={'N': N, 'NFFT': d['NFFT'], 'fs': fs, 'factor': factor}, pointwise=1e-9)
         return
+    prev = None
     for role, f, sc in runs:
         try:
-            if d.get('reuse') is not None and role != 'base':
+            if d.get('reuse') is None and d.get('j', 0) % 4 == 3 and role != 'base' and prev is not None:
+                # the very object that gave the base estimate (already read) gets the new sampling rate / the
+                # scale_by_freq flag assigned
+                p = prev
+                if role == 'fs2':
+                    p.sampling = f
+                else:
+                    p.scale_by_freq = sc
+                feats = dict(feats, same_object_reassigned=True)
+            elif d.get('reuse') is not None and role != 'base':
                 p = E.build_reused(cls, d['p'], x, NFFT=d['NFFT'], fs=f, scale=sc, salt=d['reuse'])
             else:
                 p = E.build(cls, d['p'], x, NFFT=d['NFFT'], fs=f, scale=sc)
-            log.append({'role': role, 'psd': np.asarray(p.psd), 'df': p.df, 'NFFT': p.NFFT,
+            log.append({'role': role, 'psd': np.array(p.psd, copy=True), 'df': p.df, 'NFFT': p.NFFT,
                         'freqs': np.asarray(p.frequencies(), dtype=float), 'fs': f, 'error': None})
+            prev = p
         except Exception as exc:
             log.append({'role': role, 'error': exc})
     if log[0]['error'] is not None:
